@@ -294,6 +294,42 @@ def handle (t : Array String) : String :=
     pr (Adv.initial fwhm (go nt 3 []))
   | "chunks" =>
     " ".intercalate ((Chunks.indices t[1]!.toNat! t[2]!.toNat!).map fun ab => toString ab.1 ++ " " ++ toString ab.2)
+  | "escan" =>
+    -- escan <energies>: sorted energies | results of the tagging simulation (result = its energy)
+    let (es, _) := flist t 1
+    let r := Scan.run (fun a b : Float => decide (a ≤ b)) id (fun (_ : Unit) e => e) () es
+    pr r.1 ++ " | " ++ pr r.2
+  | "escanget" =>
+    -- escanget <sorted energies> e: index of the returned result or none
+    let (es, p) := flist t 1
+    match Scan.getResult (fun a b : Float => a == b) es (List.range es.length) (fb t[p]!) with
+    | some i => toString i
+    | none => "none"
+  | "escantime" =>
+    match Scan.abundanceAtTime (fb t[1]!) [()] (fun _ _ => ()) (fb t[2]!) with
+    | some _ => "ok"
+    | none => "err"
+  | "escancs" =>
+    -- escancs z tmax cs
+    match Scan.abundanceOfCs t[1]!.toNat! (fb t[2]!) ([] : List Unit) (fun _ _ => []) t[3]!.toNat! with
+    | some (ts, _) => pr ts
+    | none => "err"
+  | "resdomain" =>
+    let (ts, p) := flist t 1
+    if Res.outOfDomain ts (fb t[p]!) then "err" else "ok"
+  | "resassemble" =>
+    -- resassemble nq ncols (col)* nb (lb ub)*: per target: N rows (column-major as given), kT rows
+    let nq := t[1]!.toNat!
+    let (cols, p) := farrs t 2
+    let nb := t[p]!.toNat!
+    let bounds := (List.range nb).map fun i => (t[p + 1 + 2 * i]!.toNat!, t[p + 2 + 2 * i]!.toNat!)
+    let out := Res.assemble (cols.toList.map (·.toList)) nq bounds
+    " | ".intercalate (out.map fun (n, k) => pr n.flatten ++ " ; " ++ pr k.flatten)
+  | "resdense" =>
+    -- resdense lb ub <column>: abundance rows ; temperature rows of one dense column
+    let (c, _) := flist t 3
+    let lb := t[1]!.toNat!; let ub := t[2]!.toNat!
+    pr (Res.denseAbundance (fun (_ : Float) => c) lb ub 0.0) ++ " ; " ++ pr (Res.denseTemperature (fun (_ : Float) => c) c.length lb ub 0.0)
   | _ => "bad-op"
 
 partial def loop (h : IO.FS.Stream) (out : IO.FS.Stream) : IO Unit := do
